@@ -98,6 +98,22 @@ func mintConfigs(thorough bool) []mintCfg {
 			}
 		}
 	}
+	// four and five periods with ends 10 s apart: one block can cross three or four period ends
+	// (the grid contains the far jump and every period end, so every subset of ends is skipped by
+	// some cadence)
+	many := []mp{{Kind: ref.Linear, Amount: "1000003"}, {Kind: ref.ExpStep, Amount: "1000", Step: 10 * time.Second, Mult: "0.5"}, {Kind: ref.NoMint}, {Kind: ref.Linear, Amount: "7"}}
+	for _, a := range many {
+		for _, b := range many {
+			for _, c := range many {
+				for _, l := range []mp{{Kind: ref.NoMint}, {Kind: ref.ExpStep, Amount: "1000003", Step: time.Second, Mult: "0.25"}} {
+					out = append(out, mintCfg{Periods: []mp{withEnd(a, 10*time.Second), withEnd(b, 20*time.Second), withEnd(c, 30*time.Second), l}})
+					if a.Kind != b.Kind {
+						out = append(out, mintCfg{Periods: []mp{withEnd(a, 10*time.Second), withEnd(b, 20*time.Second), withEnd(c, 30*time.Second), withEnd(many[0], 40*time.Second), l}})
+					}
+				}
+			}
+		}
+	}
 	// period ids need not start at 1 (validation asks only for consecutive ids above 0): the
 	// reduced two- and three-period families again with ids from 2 and from 5
 	for _, first := range []int{2, 5} {
